@@ -1,10 +1,11 @@
 #!/bin/sh
-# usage: selftest.sh [tier]      (run from anywhere; takes 30-60 minutes)
+# usage: selftest.sh [tier] [name-filter]      (run from anywhere; the whole corpus takes about an hour)
 # Must-fail / must-pass corpus: every change under seeded/ must make its property's check
 # exit 1 with a VIOLATION line; every change under selftest/refactors/ must leave it at exit 0.
 # Each change is applied to a scratch worktree of /repo (VERIF_REPO), never to /repo itself;
 # evidence files are put back afterwards (they must describe the unchanged tree).
 tier=${1:-quick}
+filter=${2:-}
 cd /verif
 export GOFLAGS=-mod=mod GOPROXY=off GOSUMDB=off GOTOOLCHAIN=local
 wt=$(mktemp -d /tmp/selftest.XXXX); rmdir $wt
@@ -13,6 +14,7 @@ mkdir -p /tmp/selftest_evidence; cp evidence/*.json /tmp/selftest_evidence/ 2>/d
 bad=0
 for d in seeded/* selftest/refactors/*; do
   [ -f $d/patch.diff ] || continue
+  case "$d" in *"$filter"*) ;; *) continue;; esac
   prop=$(python3 -c "import json,sys; print(json.load(open('$d/meta.json'))['property'])")
   expect=$(python3 -c "import json,sys; print(json.load(open('$d/meta.json')).get('expect','fail'))")
   (cd $wt && git checkout -q -- . && git apply /verif/$d/patch.diff) || { echo "SELFTEST $d: patch does not apply"; bad=1; continue; }
